@@ -4,7 +4,7 @@
 # up to 3 times; appends the outcome to <dir>/confirm.log and rewrites the VERDICT line's suite_with.
 d="$1"; crate="$2"; filters="$3"
 wt=/tmp/seed/confirm-wt-$$
-export CARGO_TARGET_DIR=/tmp/seed/confirm-target CARGO_NET_OFFLINE=true
+export CARGO_TARGET_DIR=${CONFIRM_TARGET:-/tmp/seed/confirm-target} CARGO_NET_OFFLINE=true
 unset RUSTFLAGS
 git -C /repo worktree add --detach -q $wt HEAD || exit 2
 cd $wt; git apply "$d/patch.diff" || exit 2
